@@ -279,7 +279,7 @@ def main(seed, tier, args):
     import sys
 
     n = args.cases or (1200 if tier == "quick" else 25000)
-    budget = args.budget or (100 if tier == "quick" else 900)
+    budget = args.budget or (150 if tier == "quick" else 900)
     rc, ev = engine.run_batch(sys.modules[__name__], seed, tier, n, budget)
     c = ev["coverage"]
     print(f"C19 {tier}: {c['evaluations']} cases judged ({c['simulated_runs']} variant runs), {c['distinct_nontrivial']} distinct non-trivial, discards {c['discards_by_reason']}, wall {ev['wall_s']}s")
